@@ -103,8 +103,11 @@ fn gen_comment(rng: &mut Rng) -> String {
     }
 }
 
+const UNICODE_SPACES: [&str; 21] = ["\u{a0}", "\u{a0}", "\u{1680}", "\u{2000}", "\u{2001}", "\u{2002}", "\u{2003}", "\u{2004}", "\u{2005}", "\u{2006}",
+    "\u{2007}", "\u{2008}", "\u{2009}", "\u{200a}", "\u{2028}", "\u{2029}", "\u{202f}", "\u{205f}", "\u{3000}", "\u{85}", "\u{feff}"];
+
 fn gen_ws(rng: &mut Rng, style: u64, need: bool) -> String {
-    // style 0: tidy, 1: messy, 2: heavily commented, 3: one line, 4: crlf + tabs
+    // style 0: tidy, 1: messy, 2: heavily commented, 3: one line, 4: crlf + tabs, 5: Unicode spaces
     let mut s = String::new();
     match style {
         0 => { if need || rng.chance(1, 2) { s.push(' '); } if rng.chance(1, 6) { s.push('\n'); } }
@@ -118,10 +121,18 @@ fn gen_ws(rng: &mut Rng, style: u64, need: bool) -> String {
             if need && s.is_empty() { s.push(' '); }
         }
         3 => { if need || rng.chance(1, 3) { s.push(' '); } }
-        _ => {
+        4 => {
             let n = rng.below(3) + if need { 1 } else { 0 };
             for _ in 0..n { s.push_str(*rng.pick(&["\t", "\r\n", "\r\n\t", "\t\t", " ", "\r\n\r\n"])); }
             if rng.chance(1, 10) { s.push_str(&gen_comment(rng)); }
+        }
+        _ => {
+            // Unicode whitespace of every kind between tokens (the tokenizer accepts some of them)
+            let n = rng.below(3) + if need { 1 } else { 0 };
+            for _ in 0..n {
+                if rng.chance(1, 2) { s.push_str(*rng.pick(&UNICODE_SPACES)); } else { s.push_str(*rng.pick(&[" ", "\n", "\t", "  "])); }
+            }
+            if rng.chance(1, 12) { s.push_str(&gen_comment(rng)); }
         }
     }
     s
@@ -431,6 +442,16 @@ pub fn has_syntax_errors(src: &[u8]) -> bool {
 /// Fingerprint of a failing case: the failing clause, whether the source is
 /// syntactically valid, and for idempotence failures the known shape.
 pub fn classify(src: &[u8], o: &Opts, clause: &str) -> String {
+    if clause == "panic" || clause == "unexpected-error" {
+        // caused by Unicode whitespace? (does it disappear when every Unicode space is replaced by ' ')
+        let mut cand: Vec<u8> = Vec::with_capacity(src.len());
+        let mut i = 0;
+        'outer: while i < src.len() {
+            for u in UNICODE_SPACES.iter() { let b = u.as_bytes(); if src[i..].starts_with(b) { cand.push(b' '); i += b.len(); continue 'outer; } }
+            cand.push(src[i]); i += 1;
+        }
+        if cand != src && !fails(&cand, o, clause) { return format!("{}:unicode-whitespace", clause); }
+    }
     let valid = if has_syntax_errors(src) { "invalid-source" } else { "valid-source" };
     if clause == "idempotence" && valid == "valid-source" { classify_idempotence(src, o) }
     else if clause == "idempotence" { "idempotence:invalid-source".to_string() }
@@ -440,7 +461,12 @@ pub fn classify(src: &[u8], o: &Opts, clause: &str) -> String {
         let n = a.len();
         let ext = n > 0 && n == b.len() && a[..n - 1] == b[..n - 1] && a[n - 1].0 == b[n - 1].0 && b[n - 1].1.starts_with(&a[n - 1].1)
             && b[n - 1].1[a[n - 1].1.len()..].iter().all(|c| c.is_ascii_whitespace());
-        format!("tokens:{}:{}", valid, if ext { "last-token-extended-by-appended-line-break" } else { "other" })
+        // where the two token sequences first differ
+        let first = a.iter().zip(b.iter()).position(|(x, y)| x != y).unwrap_or(a.len().min(b.len()));
+        let kind = a.get(first).map(|t| format!("{:?}", t.0)).unwrap_or_else(|| "END".into());
+        let grows = match (a.get(first), b.get(first)) { (Some(x), Some(y)) => x.0 == y.0 && y.1.starts_with(&x.1), _ => false };
+        format!("tokens:{}:{}", valid, if ext { "last-token-extended-by-appended-line-break".to_string() }
+            else if grows && kind == "UNKNOWN" { "unterminated-token-absorbs-following-text-after-line-join".to_string() } else { format!("other:first-difference-at-{}", kind) })
     }
     else { format!("{}:{}", clause, valid) }
 }
@@ -731,6 +757,9 @@ fn corpus() -> Vec<(String, Opts)> {
         // DESIGN.md section 7 #15
         ("rule a {\n  strings:\n    $a = \"x\"\n    $b = \"y\"\n  condition: /* c3 */ $a and // c4\n $b\n}\n".to_string(), d),
         ("rule t { condition: true }".to_string(), d),
+        // Unicode whitespace: NBSP is whitespace for the tokenizer (Tokens::next reached unreachable!()), U+2028 is not
+        ("rule t {\u{a0}condition:\u{2003}true }".to_string(), d),
+        ("rule t {\u{2028}condition: true }".to_string(), d),
         ("".to_string(), d),
         ("// only a comment".to_string(), d),
         ("rule t {\r\n\tcondition:\r\n\t\ttrue\r\n}\r\n".to_string(), d),
@@ -770,7 +799,7 @@ pub fn run(args: &[String]) -> i32 {
             (s.into_bytes(), vec![o], "corpus")
         } else {
             let mut lex = gen_lexemes(&mut rng);
-            let style = rng.below(5);
+            let style = if rng.chance(1, 12) { 5 } else { rng.below(5) };
             let class = rng.below(10);
             let kind = if class < 7 { "valid" } else if class < 9 { mutate(&mut rng, &mut lex); "token-mutation" } else { "byte-mutation" };
             let mut text = render(&mut rng, &lex, style).into_bytes();
@@ -972,6 +1001,10 @@ fn probe(path: &str) -> i32 {
     println!("--- pass 1 ({:?})\n{}", ob.out1, String::from_utf8_lossy(&ob.out1_text));
     println!("--- pass 2 ({:?})\n{}", ob.out2, String::from_utf8_lossy(&ob.out2_text));
     println!("failing clauses: {:?}", f);
+    if f.contains(&"tokens") {
+        println!("significant tokens of the input:  {:?}", ob.in_sig.iter().map(|(k, t)| format!("{:?}:{:?}", k, String::from_utf8_lossy(t))).collect::<Vec<_>>());
+        println!("significant tokens of the output: {:?}", ob.out1_sig.iter().map(|(k, t)| format!("{:?}:{:?}", k, String::from_utf8_lossy(t))).collect::<Vec<_>>());
+    }
     for c in &f { println!("class: {}", classify(&src, &o, c)); }
     if let (Some(b), Some(c)) = (std::env::var("C15_MINIMISE").ok(), f.first()) {
         let class = classify(&src, &o, c);
